@@ -568,7 +568,7 @@ Theorem C20_coalesce_tables :
 Proof. exact coalesce_tables_p_agrees. Qed.
 Print Assumptions C20_coalesce_tables.
 
-(* trimNilValues (dependencies.go :351): the assertion under istable(val) *)
+(* trimNilValues (dependencies.go :348): the assertion under istable(val) *)
 Theorem C20_trim_nil_values : forall v : val, no_panic (trim_nil_p v).
 Proof. exact trim_nil_p_no_panic. Qed.
 Print Assumptions C20_trim_nil_values.
